@@ -25,7 +25,7 @@ type BodyCase struct {
 	Var  string `json:"var"`
 }
 
-const bodyRule = "bodies: 51 body templates (38 native, 13 JSON; 10 of them put the marked value inside a constructor decoded against 8 typed attribute specs whose conversion changes the structure: object->map, tuple->set/list, nested) (attributes, static blocks with and without labels, dynamic blocks whose for_each / labels / content / iterator use the marked variable, static and dynamic blocks nested in dynamic content) x 5 marked variables x every hcldec block spec kind (Attr, Block, BlockList, BlockSet, BlockTuple, BlockMap, BlockObject, BlockAttrs; nested block specs one level down) x all pairs of contents incl. unknown; decoded with dynblock.Expand + hcldec.Decode, and in two steps (hcldec.PartialDecode of an unrelated attribute, then Decode of the remaining body); contents include typed nulls (DefaultSpec)"
+const bodyRule = "bodies: 55 body templates (42 native, 13 JSON; 10 of them put the marked value inside a constructor decoded against 8 typed attribute specs whose conversion changes the structure: object->map, tuple->set/list, nested) (attributes, static blocks with and without labels, dynamic blocks whose for_each / labels / content / iterator use the marked variable, static and dynamic blocks nested in dynamic content) x 5 marked variables x every hcldec block spec kind (Attr, Block, BlockList, BlockSet, BlockTuple, BlockMap, BlockObject, BlockAttrs; nested block specs one level down) x all pairs of contents incl. unknown, each once with all other variables unmarked and once with every other variable carrying a different mark (the result must carry the marked variable's own mark); decoded with dynblock.Expand + hcldec.Decode, and in two steps (hcldec.PartialDecode of an unrelated attribute, then Decode of the remaining body); contents include typed nulls (DefaultSpec)"
 
 var attrA = &hcldec.AttrSpec{Name: "a", Type: cty.DynamicPseudoType}
 
@@ -138,6 +138,12 @@ var templates = []tmpl{
 	{text: "dynamic \"b\" {\n  for_each = [1]\n  content {\n    c {\n      a = X\n    }\n  }\n}\n", nested: true},
 	{text: "dynamic \"b\" {\n  for_each = X\n  content {\n    c {}\n  }\n}\n", nested: true},
 	{text: "dynamic \"b\" {\n  for_each = [1]\n  content {\n    dynamic \"c\" {\n      for_each = X\n      content {}\n    }\n  }\n}\n", nested: true},
+	// two nesting levels driven by two variables (ss is never the marked variable; in the
+	// background-marks runs it carries the other mark)
+	{text: "dynamic \"b\" {\n  for_each = ss\n  content {\n    dynamic \"c\" {\n      for_each = X\n      content {\n        a = c.value\n      }\n    }\n  }\n}\n", nested: true},
+	{text: "dynamic \"b\" {\n  for_each = ss\n  content {\n    dynamic \"c\" {\n      for_each = X\n      content {\n        a = 1\n      }\n    }\n  }\n}\n", nested: true},
+	{text: "dynamic \"b\" {\n  for_each = X\n  content {\n    dynamic \"c\" {\n      for_each = ss\n      content {\n        a = c.value\n      }\n    }\n  }\n}\n", nested: true},
+	{text: "dynamic \"b\" {\n  for_each = ss\n  content {\n    c {\n      a = X\n    }\n  }\n}\n", nested: true},
 }
 
 func s(x string) cty.Value { return cty.StringVal(x) }
@@ -214,9 +220,36 @@ func judgeBody(d Data) engine.Outcome {
 	if diags.HasErrors() {
 		return engine.Skip()
 	}
+	o := judgeBodyIn(d, f, spec, twoStep, false)
+	// the same with every other variable carrying a different mark
+	o2 := judgeBodyIn(d, f, spec, twoStep, true)
+	// the two narrow classes of the recorded findings (no block at all / unknown for_each) must
+	// not hide a failure of the general class in the other mode
+	narrow := func(x engine.Outcome) bool {
+		return strings.HasSuffix(x.Class, ".zero-blocks.mark-lost") || strings.HasSuffix(x.Class, ".unknown-input.mark-lost")
+	}
+	switch {
+	case o.V == engine.Viol && !narrow(o):
+		return o
+	case o2.V == engine.Viol && !narrow(o2):
+		return o2
+	case o.V == engine.Viol:
+		return o
+	case o2.V == engine.Viol:
+		return o2
+	}
+	return o
+}
+
+func judgeBodyIn(d Data, f *hcl.File, spec hcldec.Spec, twoStep, background bool) engine.Outcome {
+	bc := d.Body
+	note := ""
+	if background {
+		note = " (every other variable marked OTHER)"
+	}
 	var runs []run
 	for _, in := range bodyContents[bc.Var] {
-		ctx := &hcl.EvalContext{Variables: pool.WithVar(bc.Var, in.Mark(mark)), Functions: pool.ImplFuncs()}
+		ctx := &hcl.EvalContext{Variables: withOthersMarked(bc.Var, in.Mark(mark), background), Functions: pool.ImplFuncs()}
 		body := dynblock.Expand(f.Body, ctx)
 		if twoStep {
 			// decode an unrelated attribute first and the rest from the remaining body
@@ -260,7 +293,7 @@ func judgeBody(d Data) engine.Outcome {
 	best, bestRank := -1, 99
 	bestClass := ""
 	for i, r := range runs {
-		if needs[i] < 0 || r.out.ContainsMarked() {
+		if needs[i] < 0 || hasMark(r.out, mark) {
 			continue
 		}
 		rank, class := 0, "c06.body."+construct+"."+strings.ReplaceAll(bc.Spec, "/", "-")+".mark-lost"
@@ -277,8 +310,8 @@ func judgeBody(d Data) engine.Outcome {
 	if best >= 0 {
 		a, b := runs[best], runs[needs[best]]
 		return engine.Fail(bestClass,
-			"body decoded with spec %q, marked variable %s:\n%s\n  %s = %s  ->  %s\n  %s = %s  ->  %s\nthe decoded values differ, so both depend on the marked variable, but the first carries no mark",
-			bc.Spec, bc.Var, bc.Text, bc.Var, vfmt.V(a.in), vfmt.V(a.out), bc.Var, vfmt.V(b.in), vfmt.V(b.out))
+			"body decoded with spec %q, marked variable %s%s:\n%s\n  %s = %s  ->  %s\n  %s = %s  ->  %s\nthe decoded values differ, so both depend on the marked variable, but the first does not carry its mark",
+			bc.Spec, bc.Var, note, bc.Text, bc.Var, vfmt.V(a.in), vfmt.V(a.out), bc.Var, vfmt.V(b.in), vfmt.V(b.out))
 	}
 	counters.Add("dependent_pairs_bodies", int64(pairs))
 	if pairs == 0 {
